@@ -34,19 +34,19 @@ type srvReq struct {
 	Type    int    `json:"type"`
 	KeySel  int    `json:"key_sel"` // 0 empty, 1 one byte, 2 pool multihash, 3 80 bytes, 4 81 bytes, 5 4 KiB, 6 value key, 7 id of an RT peer, 8 sender id, 9 self id
 	KeyN    int    `json:"key_n"`
-	Rec     string `json:"rec,omitempty"`   // "" none | ok | badkey | invalid | emptyval
+	Rec     string `json:"rec,omitempty"` // "" none | ok | badkey | invalid | emptyval
 	Rank    int    `json:"rank,omitempty"`
-	Provs   []int  `json:"provs,omitempty"` // provider records: 0 sender id, 1 other id, 2 empty id
-	PAddr   string `json:"paddr,omitempty"` // addresses of those records: "" none | ok | bad (undecodable) | huge | mixed (public+loopback)
+	Provs   []int  `json:"provs,omitempty"`  // provider records: 0 sender id, 1 other id, 2 empty id
+	PAddr   string `json:"paddr,omitempty"`  // addresses of those records: "" none | ok | bad (undecodable) | huge | mixed (public+loopback)
 	Closer  int    `json:"closer,omitempty"` // number of junk closer peers stuffed into the request
 	Cluster int    `json:"cluster,omitempty"`
-	Raw     []byte `json:"raw,omitempty"`   // Kind raw: bytes written verbatim
+	Raw     []byte `json:"raw,omitempty"`    // Kind raw: bytes written verbatim
 	Mutate  int    `json:"mutate,omitempty"` // msg: 0 none; 1 truncate frame; 2 oversize length prefix; 3 flip a byte
 }
 
 type srvSc struct {
 	K        int      `json:"k"`
-	Client   bool     `json:"client"`      // client mode: nothing is served
+	Client   bool     `json:"client"` // client mode: nothing is served
 	Self     int      `json:"self"`
 	RT       []int    `json:"rt"`          // pool indices in the routing table
 	NoAddr   []int    `json:"no_addr"`     // positions in RT without peerstore addresses
